@@ -29,10 +29,54 @@ Theorem C03_counters : forall c s,
 Proof. exact counters. Qed.
 Print Assumptions C03_counters.
 
+(* Every acquired item is released exactly once, by the instance that acquired it, after its
+   Shoot or discard (or directly, when the profile ran out while the item was held), and no
+   event touches an item after its release; items never acquired have no events. *)
+Theorem C03_acquire_release : forall c s,
+  reach c s -> terminal s ->
+  acquired (sh s) = released (sh s)
+  /\ (forall a, a < acquired (sh s) -> item_history_ok a (proj a (events s)))
+  /\ (forall a, acquired (sh s) <= a -> proj a (events s) = []).
+Proof. exact acquire_release. Qed.
+Print Assumptions C03_acquire_release.
+
+(* The boolean checker the correspondence driver runs on OBSERVED logs decides that statement. *)
+Theorem C03_pairing_checker : forall n l,
+  pairing_b n l = true <->
+  (forall a, a < n -> item_history_ok a (proj a l)) /\ (forall a, n <= a -> proj a l = []).
+Proof. exact pairing_b_spec. Qed.
+Print Assumptions C03_pairing_checker.
+
+(* A log of the real engine that the replay accepts ends in a state of the model that is
+   reachable: the theorems above apply to the counters the model predicts for that run. *)
+Theorem C03_replay_sound : forall c l s k,
+  replay c l (init c) 0 = (s, k, true) -> reach c s.
+Proof. intros c l s k H. eapply replay_reach; [constructor|exact H]. Qed.
+Print Assumptions C03_replay_sound.
+
 (* non-vacuity: one instance, profile once(1), one ammo item: a complete run exists *)
 Example C03_run_exists :
   exists s, run (mkCfg false false 1 1)
                 [ASpawn; AStep 0 false; AStep 0 false; AStep 0 false; AStep 0 false; AStep 0 false;
                  AStep 0 false; AStep 0 false; AStep 0 false; AClose] (init (mkCfg false false 1 1)) = Some s
             /\ terminal_b s = true /\ length (insts s) >= 1 /\ fired (sh s) = 1.
+Proof. eexists. split; [vm_compute; reflexivity|]. vm_compute. repeat split; auto. Qed.
+
+(* the unfired bound is reached: shared profile once(1), two instances, two items *)
+Example C03_unfired_tight :
+  exists s, run (mkCfg false false 1 2)
+                [ASpawn; ASpawn; AStep 0 false; AStep 1 false; AStep 0 false; AStep 1 false; AStep 0 false;
+                 AStep 1 false; AStep 0 false; AStep 0 false; AStep 0 false; AStep 0 false; AStep 0 false;
+                 AStep 1 false; AStep 1 false; AClose] (init (mkCfg false false 1 2)) = Some s
+            /\ terminal_b s = true /\ acquired (sh s) - (fired (sh s) + discarded (sh s)) = length (insts s) - 1
+            /\ fired (sh s) + discarded (sh s) = 1.
+Proof. eexists. split; [vm_compute; reflexivity|]. vm_compute. repeat split; auto. Qed.
+
+(* per-instance profiles, discard_overflow with the overdue oracle set: 2 instances x once(1), 3 items *)
+Example C03_per_instance_run :
+  exists s, run (mkCfg true true 1 3)
+                [ASpawn; AStep 0 false; AStep 0 false; AStep 0 false; AStep 0 true; AStep 0 false; AStep 0 false;
+                 ASpawn; AStep 1 false; AStep 1 false; AStep 1 false; AStep 1 false; AStep 1 false; AStep 1 false;
+                 AStep 1 false; AStep 1 false; AClose] (init (mkCfg true true 1 3)) = Some s
+            /\ terminal_b s = true /\ fired (sh s) = 1 /\ discarded (sh s) = 1 /\ tokens (mkCfg true true 1 3) s = 2.
 Proof. eexists. split; [vm_compute; reflexivity|]. vm_compute. repeat split; auto. Qed.
